@@ -592,8 +592,8 @@ pub fn gen_string(rg: &mut Rg, cfg: &GenCfg) -> EnumSpec {
             }
         }
         // naming attributes
+        // (a default variant WITH a to_string is an ordinary named variant for Display, placeholders included)
         let placeholders = cfg.allow_placeholders
-            && !want_default
             && !want_transparent
             && !v.fields.is_empty()
             && v.fields.iter().all(|f| !matches!(f.ty, FieldTy::Gen | FieldTy::Gen2 | FieldTy::Phantom | FieldTy::RefStr))
